@@ -425,7 +425,8 @@ def run(chk):
         in_stop_arm = any(pol and isinstance(t, ast.Call) and dotted(t.func) == "isinstance" and last_attr(t.args[1]) == "StopNodes" for t, pol in gs)
         if in_stop_arm:
             continue
-        ok = any(pol and is_self_attr(t, "mechanic") for t, pol in gs)
+        from sa import pat as _pat
+        ok = _pat.guarded(c, "self.mechanic", "self.mechanic is not None") is not None
         chk.ob("O12.5", "stop on exit request guarded by the mechanic reference (no second stop)", ok, c, short(source.enclosing_stmt(c), 60))
     nsx = [n for m in repo.all_modules() for n in ast.walk(m.tree) if isinstance(n, ast.Call) and last_attr(n.func) == "NodesStopped"
            and isinstance(source.parent(n), ast.Call) and source.enclosing_func(n) is not ur]
